@@ -215,6 +215,16 @@ func genManifestSteps(c *ctx) error {
 	}
 	// the checker closure of fileManifest.Update
 	c.defStringList("fileManifestUpdate", c.manEvents(man_fmGo, fd, nil))
+	// the journal manifest's Update: same updateWithChecker, but no per-call LOCK and a checker without checkNewSpecsPresent
+	fd, err = c.manMustFunc(man_jrnGo, "journalManifest", "Update")
+	if err != nil {
+		return err
+	}
+	evs = c.manEvents(man_jrnGo, fd, nil)
+	if err := manNeed("journalManifest.Update", evs, "call:updateWithChecker"); err != nil {
+		return err
+	}
+	c.defStringList("journalManifestUpdate", evs)
 	for _, fn := range []string{"pruneDirAsOf", "unlinkUnderManifestLock", "unlinkCandidates", "manifestMtimeChanged", "classifyPruneCandidate"} {
 		fd, err := c.manMustFunc(man_pruneGo, "", fn)
 		if err != nil {
